@@ -70,6 +70,7 @@ type PlantInfo struct {
 	Runtime bool   `json:"runtime,omitempty"`
 	Warning bool   `json:"warning,omitempty"`
 	Lex     bool   `json:"lex,omitempty"`
+	Exact   bool   `json:"exact,omitempty"` // compile plant whose offending token is beyond doubt
 	TokLo   int    `json:"tok_lo,omitempty"`
 }
 
